@@ -11,7 +11,7 @@ CONSTANTS
   Specials = {"const"}
   Classes <- None
   Methods = {"overlap", "distance"}
-  FrameKinds = {"empty", "one", "two"}
+  FrameKinds = {"empty", "one", "two", "shifted"}
   MaxFrames = 3
 INVARIANT NoUndocumentedRaise
 INVARIANT FiniteResult
